@@ -103,3 +103,16 @@ pub fn fnv(data: &[u8]) -> u64 {
     }
     h
 }
+
+/// Secondary choice bytes that are a pure function of a tape (used for choices that must not
+/// shift the primary generation, e.g. which mutant of a generated unit to evaluate).
+pub fn derived(tape: &[u8], n: usize) -> Vec<u8> {
+    let mut z = fnv(tape) ^ (tape.len() as u64) << 40;
+    let mut v = Vec::with_capacity(n);
+    while v.len() < n {
+        z = mix(z);
+        v.extend_from_slice(&z.to_le_bytes());
+    }
+    v.truncate(n);
+    v
+}
